@@ -84,9 +84,29 @@ class _SplitConditionalEffects(ast.NodeTransformer):
                 ast.copy_location(n, comp.elt if n is app or n is app.value else s)
         return ast.copy_location(loop, s)
 
+    def _unroll_filtered_list(self, s):
+        """`xs = [E for T in <literal rows> if C]`  ->  `xs = []` + `for T in rows: if C: xs.append(E)`"""
+        if not (isinstance(s, ast.Assign) and len(s.targets) == 1 and isinstance(s.targets[0], ast.Name) and isinstance(s.value, ast.ListComp)
+                and len(s.value.generators) == 1 and s.value.generators[0].ifs and isinstance(s.value.generators[0].iter, (ast.Tuple, ast.List))):
+            return [s]
+        comp, g = s.value, s.value.generators[0]
+        init = ast.copy_location(ast.Assign(targets=s.targets, value=ast.copy_location(ast.List(elts=[], ctx=ast.Load()), s)), s)
+        app = ast.Expr(ast.Call(func=ast.Attribute(value=ast.Name(s.targets[0].id, ast.Load()), attr="append", ctx=ast.Load()), args=[comp.elt], keywords=[]))
+        body = [app]
+        for c in reversed(g.ifs):
+            body = [ast.If(test=c, body=body, orelse=[])]
+        loop = ast.For(target=g.target, iter=g.iter, body=body, orelse=[], type_comment=None)
+        for n in ast.walk(loop):
+            if not hasattr(n, "lineno"):
+                ast.copy_location(n, s)
+        return [init, ast.copy_location(loop, s)]
+
     def _block(self, body):
         out = []
+        pre = []
         for s in body:
+            pre.extend(self._unroll_filtered_list(s))
+        for s in pre:
             s = self._unroll_extend(s)
             s = self.generic_visit(s) if not isinstance(s, self.SIMPLE) else s
             out.extend(self._split(s))
